@@ -394,7 +394,13 @@ def check_agreement_only(scn):
             a = int(rng.randint(0, 3))
             b = a if yt == yp else (a + 1 + int(rng.randint(0, 2))) % 3
             return ("c%d" % a, "c%d" % b)
-        return (f(yt), f(yp))
+        a_, b_ = f(yt), f(yp)
+        # the two labels of a pair may arrive in different (one-element) containers: only agreement matters
+        wrap = scn.get("wrap", 0)
+        if wrap:
+            boxes = [lambda v: v, lambda v: [v], lambda v: (v,), lambda v: np.array([v]), lambda v: np.array([[v]])]
+            a_, b_ = boxes[(wrap + i) % 5](a_), boxes[(2 * wrap + i + 1) % 5](b_)
+        return (a_, b_)
     if name == "LinearFourRates":
         if enc % 3 == 0:
             tr2 = lambda i, a: (bool(a[0]), bool(a[1]))
@@ -452,7 +458,11 @@ THRESHOLDS = {
     "STEPD": [("alpha_drift", 0.01, 0.2), ("alpha_drift", 0.05, 0.1)],
     "LinearFourRates": [("detect_level", 0.02, 0.2)],
     "KdqTreeStreaming": [("alpha", 0.02, 0.4)], "KdqTreeBatch": [("alpha", 0.02, 0.4), ("alpha", 0.004, 0.2)],
-    "NNDVI": [("alpha", 0.01, 0.3)],
+    # (NNDVI: also close pairs under larger numbers of re-assignments - the critical value must be monotone in alpha
+    # however it is estimated)
+    "NNDVI": [("alpha", 0.01, 0.3), ("alpha", 0.015, 0.02, {"sampling_times": 500}), ("alpha", 0.04, 0.06, {"sampling_times": 200}),
+              ("alpha", 0.09, 0.11, {"sampling_times": 100}), ("alpha", 0.019, 0.021, {"sampling_times": 500}),
+              ("alpha", 0.01, 0.05, {"sampling_times": 300})],
     "HDDDM": [("significance", 0.01, 0.3)], "CDBD": [("significance", 0.01, 0.3)],
 }
 WARNINGS = {
@@ -471,8 +481,21 @@ def first_index(trace, state):
 
 def check_threshold(scn):
     name, variant, seed, n, k = scn["det"], scn["variant"], scn["seed"], scn["n"], scn["k"]
-    par, strict, loose = THRESHOLDS[name][k % len(THRESHOLDS[name])]
-    over_s, over_l = {par: strict}, {par: loose}
+    entry = THRESHOLDS[name][k % len(THRESHOLDS[name])]
+    par, strict, loose = entry[:3]
+    extra = dict(entry[3]) if len(entry) > 3 else {}
+    over_s, over_l = dict(extra, **{par: strict}), dict(extra, **{par: loose})
+    if scn.get("slow"):
+        # a slowly drifting batch history: distances creep up, so that they pass between close critical values
+        kw_stream = {"levels": tuple(0.25 * i for i in range(n + 1)), "rows": 30}
+        st_ = C.stream(name, seed, n, vary_rows=False, **kw_stream)
+        ts, _ = run_trace(name, variant, seed, n, override=over_s, stream=st_)
+        tl, _ = run_trace(name, variant, seed, n, override=over_l, stream=st_)
+        fs, fl = first_index(ts, "drift"), first_index(tl, "drift")
+        if fs is not None and (fl is None or fs < fl):
+            return len(ts) * 2, True, "stricter %s=%r alarms first at %s, looser %s=%r at %s (slowly drifting history, %r)" % (
+                par, over_s[par], fs, par, over_l[par], fl, extra)
+        return len(ts) * 2, fl is not None, None
     if name in ("HDDDM", "CDBD") and C.DETECTORS[name]["variants"][variant % len(C.DETECTORS[name]["variants"])].get("statistic") == "stdev":
         over_s, over_l = {par: 3.0}, {par: 0.5}       # number of standard deviations: larger is stricter
     ts, _ = run_trace(name, variant, seed, n, override=over_s)
@@ -481,6 +504,34 @@ def check_threshold(scn):
     if fs is not None and (fl is None or fs < fl):
         return len(ts) * 2, True, "stricter %s=%r alarms first at %s, looser %s=%r at %s" % (par, over_s[par], fs, par, over_l[par], fl)
     return len(ts) * 2, fl is not None, None
+
+
+def check_nndvi_alpha(scn):
+    """NN-DVI on a very slowly drifting history (the distance creeps up to the critical value): a smaller alpha must never
+    alarm on an earlier batch, also for close alpha pairs and many re-assignments"""
+    from menelaus.data_drift import NNDVI
+    seed, strict, loose, st, k, rows, slope = scn["seed"], scn["strict"], scn["loose"], scn["sampling_times"], scn["k"], scn["rows"], scn["slope"]
+    firsts = []
+    for alpha in (strict, loose):
+        rng = np.random.RandomState(seed)
+        ref = rng.normal(size=(rows, 2))
+        batches = [rng.normal(slope * i, 1, size=(rows, 2)) for i in range(1, scn["n"] + 1)]
+        det = NNDVI(k_nn=k, sampling_times=st, alpha=alpha)
+        np.random.seed(seed + 7)
+        det.set_reference(ref)
+        first = None
+        for i, b in enumerate(batches):
+            np.random.seed(seed * 131 + i)
+            det.update(b)
+            if det.drift_state == "drift":
+                first = i
+                break
+        firsts.append(first)
+    fs, fl = firsts
+    if fs is not None and (fl is None or fs < fl):
+        return scn["n"] * 2, True, "stricter alpha=%r alarms first at batch %s, looser alpha=%r at %s (k_nn=%d, sampling_times=%d)" % (
+            strict, fs, loose, fl, k, st)
+    return scn["n"] * 2, fl is not None, None
 
 
 def check_warning_threshold(scn):
@@ -586,6 +637,39 @@ def check_row_order_large(scn):
     return 2, True, None
 
 
+def check_row_order_replay(scn):
+    """NN-DVI with numpy seeded ONCE for the whole sequence, on a history that replays the reference batch verbatim: the
+    run on row-permuted batches must take the same decisions (any shortcut that depends on the row order, or that changes
+    how much randomness one order consumes, shows up in the later decisions)"""
+    from menelaus.data_drift import NNDVI
+    seed, nb = scn["seed"], scn["n"]
+    rng = np.random.RandomState(seed)
+    ref = rng.randn(25, 2)
+    batches = []
+    for i in range(nb):
+        if i in (1, 4):
+            batches.append(ref.copy())                       # the reference again, same rows in the same order
+        else:
+            batches.append(0.09 * i + rng.randn(25, 2))      # creeping shift: borderline decisions
+    prm = np.random.RandomState(seed + 99)
+    runs = []
+    for permute in (False, True):
+        det = NNDVI(k_nn=scn.get("k", 5), sampling_times=scn.get("sampling_times", 20), alpha=scn.get("alpha", 0.2))
+        np.random.seed(seed)
+        det.set_reference(ref[prm.permutation(len(ref))] if permute else ref)
+        out = []
+        cur_ref_is_initial = True
+        for b in batches:
+            det.update(b[prm.permutation(len(b))] if permute else b)
+            out.append(det.drift_state)
+        runs.append(out)
+    a, b = runs
+    for i, (x, y) in enumerate(zip(a, b)):
+        if x != y:
+            return nb * 2, True, "NNDVI (seed set once): decisions differ from batch %d on when the rows of every batch are permuted: %r vs %r" % (i, a, b)
+    return nb * 2, any(x == "drift" for x in a), None
+
+
 def check_nnps_order(scn):
     from menelaus.partitioners import NNSpacePartitioner
     seed, n1, n2, k, lattice = scn["seed"], scn["n1"], scn["n2"], scn["k"], scn.get("lattice", False)
@@ -682,7 +766,7 @@ CHECKS = {
     "lifecycle": check_lifecycle, "clean_slate": check_clean_slate, "set_reference": check_set_reference,
     "rejected_call": check_rejected_call, "containers": check_containers, "mixed_width": check_mixed_width, "agreement_only": check_agreement_only,
     "unused_args": check_unused_args, "threshold": check_threshold, "warning_threshold": check_warning_threshold,
-    "row_order": check_row_order, "row_order_large": check_row_order_large, "nnps_order": check_nnps_order, "no_alias": check_no_alias,
+    "nndvi_alpha": check_nndvi_alpha, "row_order": check_row_order, "row_order_replay": check_row_order_replay, "row_order_large": check_row_order_large, "nnps_order": check_nnps_order, "no_alias": check_no_alias,
 }
 
 REPLAY = '''import sys, warnings
